@@ -160,6 +160,13 @@ def run(
             raise TLCError(f"TLC timeout after {timeout}s on {module}/{cfg}") from ex
         res = TLCResult(module=module, cfg=cfg, rc=p.returncode, wall_s=time.time() - t0, stdout=p.stdout + p.stderr, cmd=" ".join(cmd))
         parse_stdout(res.stdout, res)
+        if str(workers) != "1":
+            # several workers print in an order that changes from run to run: a canonical order makes every selection
+            # derived from the list (every k-th case ...) reproducible.  Behaviour streams are produced with workers=1.
+            import json as _json
+
+            for tag in res.prints:
+                res.prints[tag].sort(key=lambda x: _json.dumps(x, sort_keys=True, default=str))
         if p.returncode != 0 and res.violated is None:
             i = res.stdout.find("Error:")
             msg = res.stdout[i : i + 2500] if i >= 0 else res.stdout[-3000:]
